@@ -87,6 +87,9 @@ def build_all(need_engine=False):
         problems["link"] = r.stderr
     if not os.path.exists(os.path.join(HARNESS_DIR, "Cargo.lock")):
         shutil.copy(os.path.join(REPO, "Cargo.lock"), os.path.join(HARNESS_DIR, "Cargo.lock"))
+    # cargo decides freshness by mtime; a source tree swapped for one with older timestamps must still be rebuilt
+    if stale_since_last_build("harness"):
+        os.utime(os.path.join(HARNESS_DIR, "src", "main.rs"))
     r = run(["cargo", "build", "--release", "--offline"], cwd=HARNESS_DIR, timeout=1800)
     if r.returncode != 0:
         problems["harness_build"] = r.stderr[-4000:]
@@ -117,8 +120,24 @@ ENGINE_TARGET = os.path.join(VERIF, "engine-target")
 ENGINE = os.path.join(ENGINE_TARGET, "release", "rust_chess_engine")
 
 
+def stale_since_last_build(what):
+    """True (and records the new hash) when the source tree differs from the one `what` was last built from."""
+    os.makedirs(WORK, exist_ok=True)
+    f = os.path.join(WORK, f"built_{what}.hash")
+    h = tree_hash() + " " + REPO
+    old = open(f).read() if os.path.exists(f) else ""
+    if old != h:
+        open(f, "w").write(h)
+        return True
+    return False
+
+
 def build_engine():
     env = dict(ENV, RUSTFLAGS="--cfg rce_verif")
+    if stale_since_last_build("engine"):
+        import glob
+        for d in glob.glob(os.path.join(ENGINE_TARGET, "release", ".fingerprint", "rust_chess_engine-*")):
+            shutil.rmtree(d, ignore_errors=True)
     r = run(["cargo", "build", "--release", "--offline", "--target-dir", ENGINE_TARGET], cwd=REPO, timeout=1800, env=env)
     return None if r.returncode == 0 else r.stderr[-4000:]
 
@@ -234,7 +253,7 @@ def pipe_stream(name, harness_args, driver_mode, cache_key=None):
                 summary = None
         elif line.startswith("MISMATCH "):
             mism.append(line)
-    res = {"name": name, "args": harness_args, "summary": summary, "mismatches": mism,
+    res = {"name": name, "args": harness_args, "driver": driver_mode, "summary": summary, "mismatches": mism,
            "harness_rc": (h.returncode if not timed_out else -9), "driver_rc": d.returncode, "harness_err": herr[-2000:], "driver_err": derr[-2000:]}
     if cache_key and summary is not None and h.returncode == 0:
         os.makedirs(os.path.join(WORK, "cache"), exist_ok=True)
@@ -322,6 +341,8 @@ def decide(pid, tier, seed):
         for line in s["mismatches"]:
             mm = parse_mismatch(line)
             mm["stream"] = s["name"]
+            mm["stream_args"] = s["args"]
+            mm["driver"] = s.get("driver", "")
             if pid not in mm["props"].split(","):
                 continue
             if mm["class"] == "spec":
@@ -331,8 +352,10 @@ def decide(pid, tier, seed):
             else:
                 model_mm.append(mm)
     for v in extra.get("violations", []):
+        v["process_level"] = True
         spec_mm.append(v)
     for v in extra.get("model_mismatches", []):
+        v["process_level"] = True
         model_mm.append(v)
 
     violations = []   # (replay path, suffix)
@@ -343,7 +366,8 @@ def decide(pid, tier, seed):
             known_lines.append(f"KNOWN-FINDING: property={pid} {k.get('what', '')}")
             continue
         violations.append((write_replay(pid, mm.get("kind", "spec"), {"property": pid, "what": "the implementation contradicts the specification on a concrete input", "mismatch": mm,
-                                                                     "replay": f"python3 tools/check.py --replay-walk \"{mm.get('root', '')} moves {mm.get('moves', '')}\""}), ""))
+                                                                     "tier": tier, "seed": seed,
+                                                                     "replay": "python3 tools/check.py --replay <this file>  (re-runs the originating stream shard, or the process-level run, against /repo's current tree and reports whether the same kind of mismatch recurs)"}), ""))
         break  # one concrete failing input is enough
     if not violations:
         reasons = []
@@ -357,7 +381,8 @@ def decide(pid, tier, seed):
             reasons.append({"broken": "correspondence stream did not complete", "streams": broken_streams})
         if reasons:
             violations.append((write_replay(pid, "unproved", {"property": pid, "what": "the property is no longer shown to hold; the failing-input search over every explored input found no input on which the implementation contradicts the specification",
-                                                              "no_longer_checks": reasons}), " no-failing-input-found"))
+                                                              "no_longer_checks": reasons, "tier": tier, "seed": seed,
+                                                              "replay": "python3 tools/check.py --replay <this file>  (re-runs the property's check at the recorded tier)"}), " no-failing-input-found"))
 
     # evidence
     obligations = len(spec["theorems"]) + len(spec["streams"][tier]) + (1 if spec.get("extra") else 0)
@@ -445,6 +470,32 @@ def main():
             r = run(["lake", "build"] + mods, cwd=LEAN, timeout=14400)
             sys.stderr.write((r.stdout + r.stderr)[-3000:])
             return r.returncode
+    if a.replay:
+        j = json.load(open(a.replay))
+        mm = j.get("mismatch") or {}
+        pid = j.get("property", "")
+        if pid in PROPS and mm.get("stream_args"):
+            # the originating shard, deterministic in its arguments (seed included)
+            with Lock():
+                build_all()
+            r = pipe_stream("replay", mm["stream_args"], mm.get("driver") or "walk")
+            same = [l for l in r["mismatches"] if parse_mismatch(l)["kind"] == mm.get("kind")]
+            print("\n".join(same[:5]) or "the recorded kind of mismatch does not recur on the current tree")
+            if same:
+                print(f"VIOLATION property={pid} replay={a.replay}")
+            return 1 if same else 0
+        if pid in PROPS and mm.get("process_level"):
+            spec = PROPS[pid]
+            with Lock():
+                build_all(need_engine=True)
+            ex = spec["extra"](j.get("tier", "quick"), j.get("seed", seed), {"engine": ENGINE, "harness": HARNESS, "driver": DRIVER, "work": WORK, "verif": VERIF, "repo": REPO})
+            same = [v for v in ex.get("violations", []) + ex.get("model_mismatches", []) if v.get("kind") == mm.get("kind")]
+            print("\n".join(v.get("raw", "")[:600] for v in same[:5]) or "the recorded kind of violation does not recur on the current tree")
+            if same:
+                print(f"VIOLATION property={pid} replay={a.replay}")
+            return 1 if same else 0
+        if pid in PROPS and not mm.get("root"):
+            return decide(pid, j.get("tier", "quick"), j.get("seed", seed))
     if a.replay_walk or a.replay:
         text = a.replay_walk
         if a.replay:
